@@ -314,19 +314,22 @@ def _decompose_qr(term_row, term_col, non_red, in_ops_list, factor, primary_ops,
     if gamma.shape[1] != 1:
         # normal qr
         q, r, p = scipy.linalg.qr(gamma, mode="economic", pivoting=True)
+        q_scale = 1
     else:
         # move the factor to q
         q = gamma
         r = np.array([1]).reshape(1, 1)
         p = np.array([0])
+        # q is not normalized here
+        q_scale = np.abs(gamma).max()
     # use relative tolerance for r since it's not normalized
     rtol = 1e-10
     rank = np.sum(np.abs(np.diag(r)) > np.abs(r[0][0]) * rtol)
 
     out_ops: List[List[OpTuple]] = [[] for _ in range(rank)]
 
-    # use absolute tolerance for q since it's normalized
-    atol = 1e-10
+    # use absolute tolerance for q since it's normalized (relative to its largest element when it is not)
+    atol = 1e-10 * q_scale
     for i, j in zip(*np.where(np.abs(q[:, :rank]) > atol)):
         symbol = term_row[i]
         qn = _compute_qn(in_ops_list, symbol, primary_ops, k)
